@@ -289,6 +289,10 @@ impl<'r, R: ReadValue> Field<'r, R> {
                     Ok(val) => Some(Ok(from_le_bytes(val.to_le_bytes()))),
                     Err(err) if matches!(err.kind(), ErrorKind::Eof) => {
                         *consumed = true;
+                        if !reader.at_end() {
+                            // There are trailing bytes that are not a whole element.
+                            return Some(Err(ProtobufError::new(ErrorKind::FieldLengthMismatch)));
+                        }
                         None
                     }
                     Err(err) => Some(Err(err)),
@@ -316,6 +320,10 @@ impl<'r, R: ReadValue> Field<'r, R> {
                     Ok(val) => Some(Ok(from_le_bytes(val.to_le_bytes()))),
                     Err(err) if matches!(err.kind(), ErrorKind::Eof) => {
                         *consumed = true;
+                        if !reader.at_end() {
+                            // There are trailing bytes that are not a whole element.
+                            return Some(Err(ProtobufError::new(ErrorKind::FieldLengthMismatch)));
+                        }
                         None
                     }
                     Err(err) => Some(Err(err)),
